@@ -184,7 +184,14 @@ class UserNode:
             self.server = await us.IMAPUserServer.new(self.maildir)
             await self.server.run()
 
-        self.run_task = loop.create_task(main(), name=f"user-node-{self.generation}")
+        import contextvars
+
+        from sim.seams import OWNER
+
+        self.owner = f"node-{self.generation}"
+        cx = contextvars.copy_context()
+        cx.run(OWNER.set, self.owner)
+        self.run_task = loop.create_task(main(), name=f"user-node-{self.generation}", context=cx)
         done, _ = await asyncio.wait({self.run_task, self.port_fut}, timeout=timeout, return_when=asyncio.FIRST_COMPLETED)
         if self.port_fut in done:
             self.port = self.port_fut.result()
@@ -208,14 +215,22 @@ class UserNode:
         ok = bool(done)
         self.server = None
         if ok:
-            self.env.process_exit()
+            await self._exit()
         return ok
 
     async def wait_exit(self, timeout):
         done, _ = await asyncio.wait({self.run_task}, timeout=timeout)
         if done:
-            self.env.process_exit()
+            await self._exit()
         return bool(done)
+
+    async def _exit(self):
+        """The simulated process is gone: none of its tasks may go on running
+        and the OS closes what it left open."""
+        victims = self.env.kill_tasks(self.owner)
+        if victims:
+            await asyncio.wait(victims, timeout=5)
+        self.env.process_exit()
 
 
 # ---------------------------------------------------------------------------
